@@ -804,7 +804,7 @@ class MBXML:
                     (token_config.value, idx) = cls.read_opaque_defined_size(
                         data, idx, token_config.length
                     )
-                elif token_config.length != 0 and len(token_config.attributes):
+                elif len(token_config.attributes):
                     newattrs = []
                     for attr_id in token_config.attributes:
                         attr_config = copy(
@@ -812,10 +812,18 @@ class MBXML:
                                 attr_id
                             ]
                         )
+                        if attr_config.length == 0:
+                            # implied value, not serialized
+                            newattrs.append(attr_id)
+                            continue
+                        attr_config.token_id = attr_id
                         (attr_config.value, idx) = cls.read_uintvar(data, idx)
                         newattrs.append(attr_config)
                     token_config.attributes = newattrs
-                    (token_config.value, idx) = cls.read_opaque(data, idx)
+                    if token_config.length == 0:
+                        token_config.value = b""
+                    else:
+                        (token_config.value, idx) = cls.read_opaque(data, idx)
                 elif token_config.length == 0:
                     token_config.value = b""
                 else:
